@@ -171,9 +171,12 @@ def sym_str(x=""):
         if isinstance(x, p.SYM_TYPES):
             return builtins.str(x)
     t = type(x)
-    if t.__module__.startswith("ckl") and t.__str__ is object.__str__ \
-            and t.__repr__ is not object.__repr__:
-        return t.__repr__(x)
+    if t.__module__ != "builtins" and px() is not None:
+        # user classes: call __str__/__repr__ directly so that a proxy result is accepted
+        if t.__str__ is not object.__str__ and t.__str__ is not BaseException.__str__:
+            return t.__str__(x)
+        if t.__str__ is object.__str__ and t.__repr__ is not object.__repr__:
+            return t.__repr__(x)
     return builtins.str(x)
 
 
@@ -215,7 +218,8 @@ def sym_repr(x):
             return int_to_str(x)
         return builtins.repr(x)
     t = type(x)
-    if t.__module__.startswith("ckl") and t.__repr__ is not object.__repr__:
+    if t.__module__ != "builtins" and px() is not None and t.__repr__ is not object.__repr__ \
+            and not isinstance(x, BaseException):
         return t.__repr__(x)
     return builtins.repr(x)
 
@@ -314,6 +318,14 @@ def sym_join(sep, items):
     p = px()
     if p is None or not (any_sym(sep) or any_sym(*items)):
         return sep.join(items)
+    if not any(isinstance(x, (p.SymStr, p.SymChar)) for x in items + [sep]) \
+            and all(isinstance(x, (builtins.str, p.SymEnum)) for x in items):
+        acc = ""
+        for k, it in enumerate(items):        # SymEnum + str stays a SymEnum (pointwise)
+            if k:
+                acc = acc + sep
+            acc = acc + it
+        return acc
     els = []
     se = p._els(sep if not isinstance(sep, p.SymEnum) else sep.conc())
     for k, it in enumerate(items):
